@@ -17,6 +17,13 @@ Require Import Ctpg.Valid.SpecMatch.
 Require Import Ctpg.Proofs.BuilderSize.
 Require Import Ctpg.Proofs.BuilderTerm.
 Require Import Ctpg.Proofs.GenClosure.
+Require Import Ctpg.Valid.LRProductive.
+Require Import Ctpg.Proofs.SafeBasics.
+Require Import Ctpg.Proofs.SafeCap.
+Require Import Ctpg.Proofs.CapFormula.
+Require Import Ctpg.Proofs.CapFormulaValid.
+Require Import Ctpg.Proofs.CapFormulaTree.
+Require Import Ctpg.Proofs.CapFormulaCex.
 From Coq Require Import Permutation.
 
 (* for every pattern the builder creates exactly the states the size analyser predicts and returns the predicted slice *)
@@ -72,3 +79,39 @@ Theorem C12_items_fit :
   forall g : grammar, GenWf.wfx_facts g -> forall l : list item, NoDup l -> Forall (item_okP g) l -> length l <= address_space g.
 Proof. exact items_length_bound. Qed.
 Print Assumptions C12_items_fit.
+
+(* the model's EmptyRulesCount is the number of rules written with an empty right side *)
+Theorem C12_cstring_stack_formula_is_the_dsl_count :
+  forall (rg : raw_grammar) (g : grammar), analyze rg = Some g -> empty_rules g = empty_right_sides g /\ empty_rules g = length (filter (fun r : raw_rule => match rr_r r with | [] => true | _ :: _ => false end) (rg_rules rg)).
+Proof. exact analyze_empty_rules. Qed.
+Print Assumptions C12_cstring_stack_formula_is_the_dsl_count.
+
+(* STACK CAPACITY for cstring_buffer: for a grammar without empty rules and a table without error-symbol shifts the capacity N + EmptyRulesCount + 1 suffices for EVERY input, functors, options and lexer: the run equals the unbounded run and never throws (pure counting: every shift consumes a byte, every reduction pops before it pushes) *)
+Theorem C12_cstring_capacity_suffices_without_empty_rules_and_recovery :
+  forall (V C : Type) (g : grammar) (tbl : LRGen.table) (opts : options) (buf : list nat) (lexer : bool -> spoint -> list nat -> list lex_event * option (nat * nat)) (term_f : nat -> nat -> nat -> spoint -> V) (err_f : spoint -> V) (rule_f : nat -> C -> list V -> C * V), empty_rules g = 0 -> DriverBasics.eof_err_not_shifted g tbl -> no_shifterrb tbl = true -> lexer_in_range lexer -> forall (fuel : nat) (c : C), run V C g tbl opts buf (Some (cstring_cap g (length buf))) lexer term_f err_f rule_f fuel c = run V C g tbl opts buf None lexer term_f err_f rule_f fuel c /\ fst (fst (run V C g tbl opts buf (Some (cstring_cap g (length buf))) lexer term_f err_f rule_f fuel c)) <> Throw.
+Proof. exact cstring_capacity_suffices_without_empty_rules. Qed.
+Print Assumptions C12_cstring_capacity_suffices_without_empty_rules_and_recovery.
+
+(* REFUTED in general (known finding D8): S -> A A A A A A b, A -> empty, input b: validated table, the unbounded run accepts, the run with the library's capacity 4 throws *)
+Theorem C12_cstring_capacity_formula_refuted_by_empty_reductions :
+  analyze d8_raw = Some d8_g /\ (exists sts : list lrstate, gen d8_g = inl (sts, d8_tbl)) /\ validate d8_g (sts_of d8_g) d8_tbl = true /\ LRSound.tokens_ok d8_g [0] /\ cstring_cap d8_g (length [0]) = 4 /\ res (tree_run_cap d8_g d8_tbl None [0] 20) = Accept d8_tree /\ tree_run d8_g d8_tbl [0] 20 = Accept d8_tree /\ res (tree_run_cap d8_g d8_tbl (Some (cstring_cap d8_g (length [0]))) [0] 20) = Throw.
+Proof. exact cstring_capacity_formula_refuted. Qed.
+Print Assumptions C12_cstring_capacity_formula_refuted_by_empty_reductions.
+
+(* the least capacity that works for that input is 8 *)
+Theorem C12_least_sufficient_capacity_of_that_input :
+  max_height tree unit d8_g d8_tbl tree_opts [0] id_lexer (fun (t _ _ : nat) (_ : spoint) => Leaf t) (fun _ : spoint => Leaf (err_idx d8_g)) (fun (r : nat) (c : unit) (args : list tree) => (c, Node r args)) 20 tt = 8 /\ (forall n : nat, (n < 8 -> res (tree_run_cap d8_g d8_tbl (Some n) [0] 20) = Throw) /\ (8 <= n -> tree_run_cap d8_g d8_tbl (Some n) [0] 20 = tree_run_cap d8_g d8_tbl None [0] 20 /\ res (tree_run_cap d8_g d8_tbl (Some n) [0] 20) = Accept d8_tree)).
+Proof. exact d8_min_capacity. Qed.
+Print Assumptions C12_least_sufficient_capacity_of_that_input.
+
+(* REFUTED also without empty rules when error recovery is used (known finding D16, found by this proof): S -> error a error b on ab needs 5 entries, the capacity is 4 - the error token takes a stack entry and consumes no byte *)
+Theorem C12_cstring_capacity_refuted_by_recovery :
+  analyze rec_raw = Some rec_g /\ (exists sts : list lrstate, gen rec_g = inl (sts, rec_tbl)) /\ validate rec_g (sts_of rec_g) rec_tbl = true /\ term_checks rec_g (sts_of rec_g) rec_tbl = true /\ empty_rules rec_g = 0 /\ DriverBasics.eof_err_not_shiftedb rec_g rec_tbl = true /\ no_error_symbol rec_g rec_tbl = false /\ no_shifterrb rec_tbl = false /\ LRSound.tokens_ok rec_g [0; 1] /\ cstring_cap rec_g (length [0; 1]) = 4 /\ res (tree_run_cap rec_g rec_tbl None [0; 1] 20) = Accept rec_tree /\ res (tree_run_cap rec_g rec_tbl (Some (cstring_cap rec_g (length [0; 1]))) [0; 1] 20) = Throw /\ max_height tree unit rec_g rec_tbl tree_opts [0; 1] id_lexer (fun (t _ _ : nat) (_ : spoint) => Leaf t) (fun _ : spoint => Leaf (err_idx rec_g)) (fun (r : nat) (c : unit) (args : list tree) => (c, Node r args)) 20 tt = 5.
+Proof. exact cstring_capacity_without_empty_rules_refuted_with_recovery. Qed.
+Print Assumptions C12_cstring_capacity_refuted_by_recovery.
+
+(* what always suffices for an accepted input: input length + number of empty nodes of its tree + 1 *)
+Theorem C12_capacity_bound_from_the_tree :
+  forall (g : grammar) (sts : list items) (tbl : LRGen.table) (w : list nat) (t : tree) (fuel : nat), validate_sound g sts tbl = true -> no_error_symbol g tbl = true -> LRSound.tokens_ok g w -> tree_run g tbl w fuel = Accept t -> forall n : nat, length w + empty_nodes t + 1 <= n -> tree_run_cap g tbl (Some n) w fuel = tree_run_cap g tbl None w fuel /\ fst (fst (tree_run_cap g tbl (Some n) w fuel)) = Accept t.
+Proof. exact capacity_from_tree_suffices. Qed.
+Print Assumptions C12_capacity_bound_from_the_tree.
